@@ -216,6 +216,9 @@ def transform(raw, kind):
 def main():
     kinds = sys.argv[1:] or ["swap-eq", "mirror-cmp", "swap-comm", "rev-arms", "negate-if", "split-edges", "extra-copies", "swap-minmax", "from-to-cast", "isnone-to-match", "match-to-ifs", "rename-locals", "anon-consts"]
     props = [json.loads(l)["id"] for l in open(os.path.join(V, "properties.jsonl"))]
+    if os.environ.get("METAMORPHIC_PROPS"):
+        # a subset of the properties (e.g. to put a *variant* of the sources, given as VERIF_REPO, through the transformations)
+        props = [p for p in props if p in os.environ["METAMORPHIC_PROPS"].split()]
     bad = 0
     for kind in kinds:
         raw, info = factsmod.extract(os.environ.get("VERIF_REPO", "/repo"), "log")
